@@ -235,7 +235,7 @@ func c16HasTamper(ts []c16Tamper, kinds string) bool {
 }
 
 func (c16) Run(in string, scratch string) Result {
-	return c15Watchdog(60*time.Second, func() Result { return c16Run(in, scratch) })
+	return c15Watchdog(2*time.Minute, func() Result { return c16Run(in, scratch) })
 }
 
 func c16Run(in string, scratch string) Result {
